@@ -5,6 +5,11 @@ A tree is JSON as read by `lean/Drivers/Graph.lean`:
     node = {"k":"meter","id":n,"c":[…]} | {"k":"batInv","id":n,"bats":[…]} | {"k":"pvInv","id":n} | {"k":"ev","id":n} | {"k":"chp","id":n}
 A case adds "bat"/"pv"/"ev" (explicit sub-pools or null), "power" (device id -> rational string) and
 "load" (meter id -> rational string).
+
+Batteries may be shared: the same battery id in the "bats" of several battery inverters (chained DC wiring);
+the generators only share batteries between inverters with the same predecessor (one DC bus behind one meter).
+A case may carry "history": [tree, …] — the topologies ONE long-lived graph object held before (formulas were
+generated on each, then `refresh_from` installed the next); the case's own tree is the topology it holds now.
 """
 from __future__ import annotations
 
@@ -45,7 +50,7 @@ def ids_of(tree: dict, kind: str) -> list[int]:
 
 
 def battery_ids(tree: dict) -> list[int]:
-    return [b for n in all_nodes(tree) if n["k"] == "batInv" for b in n["bats"]]
+    return list(dict.fromkeys(b for n in all_nodes(tree) if n["k"] == "batInv" for b in n["bats"]))
 
 
 def one_kind(children: list[dict]) -> str | None:
@@ -68,6 +73,23 @@ def admissible(tree: dict) -> bool:
         if n["k"] == "batInv" and not n["bats"]:
             return False
     return True
+
+
+def shared_batteries(tree: dict) -> str:
+    """"none" | "siblings" (only inverters with the same predecessor share a battery) | "across"."""
+    owners: dict[int, set[int]] = {}
+    for n, parent in walk(tree["succ"]):
+        if n["k"] == "batInv":
+            for b in n["bats"]:
+                owners.setdefault(b, set()).add(-1 if parent is None else parent["id"])
+    inv_count: dict[int, int] = {}
+    for n in all_nodes(tree):
+        if n["k"] == "batInv":
+            for b in set(n["bats"]):
+                inv_count[b] = inv_count.get(b, 0) + 1
+    if any(len(v) > 1 for v in owners.values()):
+        return "across"
+    return "siblings" if any(v > 1 for v in inv_count.values()) else "none"
 
 
 def has_device(n: dict) -> bool:
@@ -181,6 +203,131 @@ def gen_tree(rng: random.Random, max_nodes: int = 10, malformed: bool = False) -
     return assign_ids(rng, tree)
 
 
+def sibling_groups(tree: dict) -> list[list[dict]]:
+    """Groups (>= 2) of battery inverters with the same predecessor."""
+    groups = [[n for n in tree["succ"] if n["k"] == "batInv" and n["bats"]]]
+    groups += [[c for c in m["c"] if c["k"] == "batInv" and c["bats"]] for m in all_nodes(tree) if m["k"] == "meter"]
+    return [g for g in groups if len(g) >= 2]
+
+
+def share_batteries(rng: random.Random, tree: dict, always: bool = False) -> bool:
+    """Chained DC wiring inside sibling groups (ids must already be assigned): inverter i also hangs on a battery of
+    inverter i-1 — `a:[x] b:[x,y] c:[y]`, `a:[x] b:[x]`, `a:[x,y] b:[y,x]`, …"""
+    done = False
+    for grp in sibling_groups(tree):
+        if not always and rng.random() > 0.5:
+            continue
+        rng.shuffle(grp)
+        for prev, cur in zip(grp, grp[1:]):
+            r = rng.random()
+            if r < 0.55:
+                cur["bats"] = [rng.choice(prev["bats"])] + cur["bats"]         # joins the previous battery, keeps its own
+            elif r < 0.8:
+                cur["bats"] = [rng.choice(prev["bats"])] + cur["bats"][1:]      # its first battery IS the previous one
+            cur["bats"] = list(dict.fromkeys(cur["bats"]))
+            done = done or r < 0.8
+    return done
+
+
+def gen_dc_bus(rng: random.Random, max_nodes: int = 9) -> dict:
+    """A tree in which one place (below the grid or below some meter) carries 2-4 battery inverters on a shared bus."""
+    tree = gen_tree(rng, max_nodes=max(1, max_nodes - 3))
+    places = [None] + [m for m in all_nodes(tree) if m["k"] == "meter"]
+    place = rng.choice(places)
+    if rng.random() < 0.45:                      # a new (dedicated) battery meter for the bus
+        m = {"k": "meter", "id": 0, "c": []}
+        (tree["succ"] if place is None else place["c"]).append(m)
+        place = m
+    kids = tree["succ"] if place is None else place["c"]
+    for _ in range(rng.randint(2, 4)):
+        kids.append({"k": "batInv", "id": 0, "bats": [0] * (1 if rng.random() < 0.75 else 2)})
+    rng.shuffle(kids)
+    assign_ids(rng, tree)
+    share_batteries(rng, tree, always=True)
+    return tree
+
+
+def _fresh_ids(rng: random.Random, used: set[int], k: int) -> list[int]:
+    out = []
+    hi = max(40, 2 * (len(used) + k))
+    while len(out) < k:
+        i = rng.randint(1, hi)
+        if i not in used:
+            used.add(i)
+            out.append(i)
+    return out
+
+
+def mutate_topology(rng: random.Random, tree: dict, used: set[int]) -> dict:
+    """The next topology of a history: same ids for what stays; devices / meters are added below or removed from a
+    meter (so that it changes role: dedicated <-> mixed <-> load-only, dedicated to another type), or the number
+    of grid successors changes (grid meter <-> one of several)."""
+    import json
+
+    t = json.loads(json.dumps({"grid": tree["grid"], "succ": tree["succ"]}))
+    for _ in range(rng.randint(1, 2)):
+        meters = [m for m in all_nodes(t) if m["k"] == "meter"]
+        dedicated = [m for m in meters if one_kind(m["c"]) is not None]
+        r = rng.random()
+        if r < 0.12 or not meters:
+            # the grid gains / loses a successor
+            if len(t["succ"]) > 1 and rng.random() < 0.5:
+                t["succ"].pop(rng.randrange(len(t["succ"])))
+            else:
+                kind = rng.choice(("meter", "pvInv", "ev", "batInv"))
+                (nid,) = _fresh_ids(rng, used, 1)
+                t["succ"].append({"k": "meter", "id": nid, "c": []} if kind == "meter" else
+                                 {"k": kind, "id": nid, **({"bats": _fresh_ids(rng, used, 1)} if kind == "batInv" else {})})
+            continue
+        m = rng.choice(dedicated) if dedicated and rng.random() < 0.7 else rng.choice(meters)
+        have = one_kind(m["c"])
+        leaves = [c for c in m["c"] if c["k"] != "meter"]
+        if r < 0.55 or not leaves:
+            kinds = [k for k in ("batInv", "pvInv", "ev", "chp", "meter") if k != have] if rng.random() < 0.8 else [have or "ev"]
+            kind = rng.choice(kinds)
+            (nid,) = _fresh_ids(rng, used, 1)
+            if kind == "meter":
+                m["c"].append({"k": "meter", "id": nid, "c": []})
+            elif kind == "batInv":
+                m["c"].append({"k": "batInv", "id": nid, "bats": _fresh_ids(rng, used, 1)})
+            else:
+                m["c"].append({"k": kind, "id": nid})
+        elif r < 0.8:
+            m["c"].remove(rng.choice(leaves))
+        else:
+            # all devices below the meter are exchanged for another type
+            other = rng.choice([k for k in DEVICE_KINDS if k != have])
+            m["c"] = [c for c in m["c"] if c["k"] == "meter"]
+            for nid in _fresh_ids(rng, used, rng.randint(1, 2)):
+                m["c"].append({"k": "batInv", "id": nid, "bats": _fresh_ids(rng, used, 1)} if other == "batInv" else {"k": other, "id": nid})
+    if not t["succ"]:
+        (nid,) = _fresh_ids(rng, used, 1)
+        t["succ"].append({"k": "meter", "id": nid, "c": []})
+    return t
+
+
+def used_ids(tree: dict) -> set[int]:
+    return {tree["grid"]} | {n["id"] for n in all_nodes(tree)} | set(battery_ids(tree))
+
+
+def gen_history(rng: random.Random, steps: int) -> list[dict]:
+    """Topologies t0, t1, … over one id space (each obtained from the previous by `mutate_topology`)."""
+    t = gen_tree(rng, max_nodes=8) if rng.random() < 0.8 else gen_dc_bus(rng, 8)
+    if not any(n["k"] == "meter" and one_kind(n["c"]) for n in all_nodes(t)) and rng.random() < 0.7:
+        # make sure some meter has a role to lose
+        kind = rng.choice(DEVICE_KINDS)
+        used = used_ids(t)
+        mid, did = _fresh_ids(rng, used, 2)
+        leaf = {"k": "batInv", "id": did, "bats": _fresh_ids(rng, used, 1)} if kind == "batInv" else {"k": kind, "id": did}
+        host = rng.choice([None] + [m for m in all_nodes(t) if m["k"] == "meter" and one_kind(m["c"]) is None])
+        (t["succ"] if host is None else host["c"]).append({"k": "meter", "id": mid, "c": [leaf]})
+    used = used_ids(t)
+    out = [t]
+    for _ in range(steps):
+        out.append(mutate_topology(rng, out[-1], used))
+    return out
+
+
 def canonical_key(n: dict) -> tuple:
     if n["k"] == "meter":
         return (0, tuple(sorted(canonical_key(c) for c in n["c"])))
@@ -265,7 +412,7 @@ def make_case(rng: random.Random, tree: dict) -> dict:
         bat = [b for n in chosen for b in n["bats"]]
         if rng.random() < 0.08:          # sometimes only part of an inverter's batteries (generation error)
             bat = bat[:-1] or bat
-        case["bat"] = sorted(bat)
+        case["bat"] = sorted(set(bat))
     else:
         case["bat"] = None
     pvs = ids_of(tree, "pvInv")
@@ -303,7 +450,7 @@ def _imp() -> dict[str, Any]:
     return _imports
 
 
-def build_graph(tree: dict) -> Any:
+def comps_conns(tree: dict) -> tuple[set, set]:
     m = _imp()
     C, T = m["ComponentCategory"], m["InverterType"]
     comps = {m["Component"](tree["grid"], C.GRID)}
@@ -324,7 +471,18 @@ def build_graph(tree: dict) -> Any:
             comps.add(m["Component"](n["id"], C.EV_CHARGER))
         elif n["k"] == "chp":
             comps.add(m["Component"](n["id"], C.CHP))
-    return m["_MicrogridComponentGraph"](comps, conns)
+    return comps, conns
+
+
+def build_graph(tree: dict) -> Any:
+    comps, conns = comps_conns(tree)
+    return _imp()["_MicrogridComponentGraph"](comps, conns)
+
+
+def refresh_graph(graph: Any, tree: dict) -> None:
+    """What `ConnectionManager` does when the topology changes: the SAME graph object takes the new topology."""
+    comps, conns = comps_conns(tree)
+    graph.refresh_from(comps, conns)
 
 
 def symbolic(engine: Any) -> tuple[dict[int, int], dict[int, tuple[bool, Any]]]:
@@ -393,11 +551,13 @@ def canon_formula(engine: Any, with_fallbacks: bool = True) -> dict:
 FORMULAS = ("grid", "consumer", "producer", "battery", "pv_dfs", "pv", "ev", "chp", "battery_sub", "pv_sub", "ev_sub")
 
 
-def run_impl(case: dict) -> tuple[dict, dict[str, Any]]:
-    """Run the real generators on the case's graph.  Returns (canonical output, engines by name)."""
+def run_impl(case: dict, graph: Any = None) -> tuple[dict, dict[str, Any]]:
+    """Run the real generators on the case's graph (a fresh one unless a long-lived `graph` holding the case's
+    topology is given).  Returns (canonical output, engines by name)."""
     m = _imp()
     fg, Cfg = m["fg"], m["FormulaGeneratorConfig"]
-    graph = build_graph(case)
+    if graph is None:
+        graph = build_graph(case)
 
     class _CM:  # what `connection_manager.get()` returns
         component_graph = graph
@@ -438,6 +598,19 @@ def run_impl(case: dict) -> tuple[dict, dict[str, Any]]:
             except Exception as e:  # pylint: disable=broad-except
                 out[name] = {"err": f"Other:{type(e).__name__}"}
     return out, engines
+
+
+def run_history(case: dict) -> tuple[dict, dict[str, Any]]:
+    """ONE graph object goes through case["history"] (all formulas are generated on every topology, then
+    `refresh_from` installs the next one) and finally holds the case's own topology: the formulas generated then."""
+    hist = case["history"]
+    graph = build_graph(hist[0])
+    for i, t in enumerate(hist):
+        if i > 0:
+            refresh_graph(graph, t)
+        run_impl({"grid": t["grid"], "succ": t["succ"], "bat": t.get("bat"), "pv": t.get("pv"), "ev": t.get("ev")}, graph)
+    refresh_graph(graph, case)
+    return run_impl(case, graph)
 
 
 def model_view(out: dict, regimes: dict) -> dict:
